@@ -39,6 +39,7 @@ type StreamDecoder struct {
 	scanp   int
 	scanned int64
 	err     error
+	pending error // reader error seen while looking ahead, reported by the next read
 	Decoder
 }
 
@@ -86,11 +87,37 @@ func (self *StreamDecoder) Decode(val interface{}) (err error) {
 		} else {
 			s = y + s
 			e = x + s
+			// the fast skipper delimits a number by the next ',', ']' or '}' (it is made for
+			// values inside containers); top-level values are separated by white space
+			if c := self.buf[s]; c == '-' || (c >= '0' && c <= '9') {
+				e = s + 1
+				for e < len(self.buf) && isNumberChar(self.buf[e]) {
+					e++
+				}
+			}
+			// a number or literal that runs up to the end of the buffered data
+			// may continue in the next chunk: look ahead before framing it
+			if e == len(self.buf) && !isSelfDelimited(self.buf[e-1]) {
+				if self.lookAhead() {
+					goto try_skip
+				}
+				// only the end of the stream completes such a value; after a reader
+				// error it may be truncated, so report the error instead
+				if self.pending != nil && self.pending != io.EOF {
+					self.setErr(self.pending)
+					self.pending = nil
+					return self.err
+				}
+			}
 		}
 
 		// must copy string here for safety
 		self.Decoder.Reset(string(self.buf[s:e]))
 		err = self.Decoder.Decode(val)
+		if err == nil && self.Decoder.Pos() != e-s {
+			// the framed text is more than one value (e.g. 01)
+			err = SyntaxError{Pos: self.Decoder.Pos(), Src: self.s, Code: types.ERR_INVALID_CHAR}
+		}
 		if err != nil {
 			self.setErr(err)
 			return
@@ -100,6 +127,8 @@ func (self *StreamDecoder) Decode(val interface{}) (err error) {
 		_, empty := self.scan()
 		if empty {
 			// no remain valid bytes, thus we just recycle buffer
+			// (the white space dropped with it still counts for InputOffset)
+			self.scanp = len(self.buf)
 			mem := self.buf
 			self.buf = nil
 			freeBytes(mem)
@@ -111,9 +140,55 @@ func (self *StreamDecoder) Decode(val interface{}) (err error) {
 
 		self.scanned += int64(self.scanp)
 		self.scanp = 0
+	} else if self.err == nil {
+		// More() is false without an error: a ']' or '}' where a value must start
+		if _, e := self.peek(); e == nil {
+			self.err = SyntaxError{self.scanp, string(self.buf), types.ERR_INVALID_CHAR, ""}
+			self.setErr(self.err)
+		}
 	}
 
 	return self.err
+}
+
+func isNumberChar(c byte) bool {
+	return (c >= '0' && c <= '9') || c == '.' || c == 'e' || c == 'E' || c == '+' || c == '-'
+}
+
+func isSelfDelimited(c byte) bool {
+	return c == '"' || c == '}' || c == ']'
+}
+
+// lookAhead appends at least one more byte to the buffer and reports whether it did.
+// The reader's error (io.EOF included) is kept in pending and reported by the next read.
+func (self *StreamDecoder) lookAhead() bool {
+	if self.pending != nil {
+		return false
+	}
+	for {
+		l := len(self.buf)
+		realloc(&self.buf)
+		n, err := self.r.Read(self.buf[l:cap(self.buf)])
+		self.buf = self.buf[:l+n]
+		if err != nil {
+			self.pending = err
+		}
+		if n > 0 {
+			return true
+		}
+		if err != nil {
+			return false
+		}
+	}
+}
+
+// read reads from the underlying reader unless an error is pending.
+func (self *StreamDecoder) read(p []byte) (int, error) {
+	if err := self.pending; err != nil {
+		self.pending = nil
+		return 0, err
+	}
+	return self.r.Read(p)
 }
 
 // InputOffset returns the input stream byte offset of the current decoder position.
@@ -152,7 +227,7 @@ func (self *StreamDecoder) readMore() bool {
 		l := len(self.buf)
 		realloc(&self.buf)
 
-		n, err = self.r.Read(self.buf[l:cap(self.buf)])
+		n, err = self.read(self.buf[l:cap(self.buf)])
 		self.buf = self.buf[:l+n]
 
 		self.scanp = l
@@ -163,6 +238,11 @@ func (self *StreamDecoder) readMore() bool {
 
 		// buffer has been scanned, now report any error
 		if err != nil {
+			// readMore is only called with an incomplete value buffered:
+			// the end of the stream here is not a clean one
+			if err == io.EOF {
+				err = io.ErrUnexpectedEOF
+			}
 			self.setErr(err)
 			return false
 		}
@@ -218,7 +298,7 @@ func (self *StreamDecoder) refill() error {
 	realloc(&self.buf)
 
 	// Read. Delay error for next iteration (after scan).
-	n, err := self.r.Read(self.buf[len(self.buf):cap(self.buf)])
+	n, err := self.read(self.buf[len(self.buf):cap(self.buf)])
 	self.buf = self.buf[0 : len(self.buf)+n]
 
 	return err
